@@ -286,15 +286,15 @@ Qed.
 
 (* ---- exec: unfolding and lists ---- *)
 
-Lemma exec_body_eq D ds st :
+Lemma exec_body_eq Os S D ds st :
   (fix go (ds : list decl) (st : state) : res state :=
      match ds with
      | [] => Ok st
-     | d :: ds' => match exec D d st with Ok st' => go ds' st' | r => r end
-     end) ds st = exec_list D ds st.
-Proof. revert st; induction ds as [|d ds IH]; intro st; simpl; [reflexivity|]. destruct (exec D d st); auto. Qed.
+     | d :: ds' => match exec (S :: Os) D d st with Ok st' => go ds' st' | r => r end
+     end) ds st = exec_list (S :: Os) D ds st.
+Proof. revert st; induction ds as [|d ds IH]; intro st; simpl; [reflexivity|]. destruct (exec (S :: Os) D d st); auto. Qed.
 
-Definition exec_obj (S : path) (ups : nat) (ns : list name) (p : prim) (body : option (list decl)) (st : state) : res state :=
+Definition exec_obj (Os : list path) (S : path) (ups : nat) (ns : list name) (p : prim) (body : option (list decl)) (st : state) : res state :=
   match ns with
   | [] => if Nat.eqb ups 0 then Unsup else Err E_UNDERSCORE
   | _ =>
@@ -304,20 +304,20 @@ Definition exec_obj (S : path) (ups : nat) (ns : list name) (p : prim) (body : o
           let '(os1, D) := ensure S B ns (objs st) in
           let st1 := mkState os1 (edges st) in
           match p with
-          | PNull => if is_prefix (fkey D) (fkey S) then Unsup else Ok (delete_obj (fkey D) st1)
+          | PNull => if existsb (fun X => is_prefix (fkey D) (fkey X)) (S :: Os) then Unsup else Ok (delete_obj (fkey D) st1)
           | _ =>
               let st2 := match p with
                          | PStr v => mkState (upd_obj (fkey D) (set_prim v) os1) (edges st)
                          | _ => st1 end in
               match body with
               | None => Ok st2
-              | Some ds => exec_list D ds st2
+              | Some ds => exec_list (S :: Os) D ds st2
               end
           end
       end
   end.
 
-Lemma exec_DObj S ups ns p body st : exec S (DObj (ups, ns) p body) st = exec_obj S ups ns p body st.
+Lemma exec_DObj Os S ups ns p body st : exec Os S (DObj (ups, ns) p body) st = exec_obj Os S ups ns p body st.
 Proof.
   unfold exec_obj. simpl. destruct ns; [reflexivity|].
   destruct (base_of S ups); [|reflexivity].
@@ -325,18 +325,18 @@ Proof.
   destruct p; try reflexivity; destruct body; try reflexivity; apply exec_body_eq.
 Qed.
 
-Lemma exec_list_app S a b st :
-  exec_list S (a ++ b) st = match exec_list S a st with Ok st' => exec_list S b st' | r => r end.
+Lemma exec_list_app Os S a b st :
+  exec_list Os S (a ++ b) st = match exec_list Os S a st with Ok st' => exec_list Os S b st' | r => r end.
 Proof.
   revert st; induction a as [|d a IH]; intro st; simpl; [reflexivity|].
-  destruct (exec S d st); [apply IH | reflexivity | reflexivity].
+  destruct (exec Os S d st); [apply IH | reflexivity | reflexivity].
 Qed.
 
 Lemma run_state_snoc p d :
-  run_state (p ++ [d]) = match run_state p with Ok st => exec [] d st | Err c => Err c | Unsup => Unsup end.
+  run_state (p ++ [d]) = match run_state p with Ok st => exec [] [] d st | Err c => Err c | Unsup => Unsup end.
 Proof.
-  unfold run_state. rewrite exec_list_app. destruct (exec_list [] p init); simpl; try reflexivity.
-  destruct (exec [] d a); reflexivity.
+  unfold run_state. rewrite exec_list_app. destruct (exec_list [] [] p init); simpl; try reflexivity.
+  destruct (exec [] [] d a); reflexivity.
 Qed.
 
 Lemma run_board p b : run p = RBoard b <-> exists st, run_state p = Ok st /\ b = to_board st.
@@ -397,26 +397,26 @@ Section Invariant.
   Hypothesis H_ensure : forall S D ns st, Inv st -> Inv (mkState (fst (ensure S D ns (objs st))) (edges st)).
   Hypothesis H_upd : forall K f st, (forall o, opath (f o) = opath o) -> Inv st -> Inv (mkState (upd_obj K f (objs st)) (edges st)).
   Hypothesis H_delete : forall K st, Inv st -> Inv (delete_obj K st).
-  Hypothesis H_edge : forall S s t sa da idx p eb st st',
-      ok (DEdge s t sa da idx p eb) = true -> Inv st -> exec S (DEdge s t sa da idx p eb) st = Ok st' -> Inv st'.
-  Hypothesis H_edge_attr : forall S s t sa da i k v st st',
-      ok (DEdgeAttr s t sa da i k v) = true -> Inv st -> exec S (DEdgeAttr s t sa da i k v) st = Ok st' -> Inv st'.
+  Hypothesis H_edge : forall Os S s t sa da idx p eb st st',
+      ok (DEdge s t sa da idx p eb) = true -> Inv st -> exec Os S (DEdge s t sa da idx p eb) st = Ok st' -> Inv st'.
+  Hypothesis H_edge_attr : forall Os S s t sa da i k v st st',
+      ok (DEdgeAttr s t sa da i k v) = true -> Inv st -> exec Os S (DEdgeAttr s t sa da i k v) st = Ok st' -> Inv st'.
 
-  Lemma exec_list_inv_aux S ds :
-    Forall (fun d => forall S st st', all_ok ok d = true -> Inv st -> exec S d st = Ok st' -> Inv st') ds ->
-    forall st st', forallb (all_ok ok) ds = true -> Inv st -> exec_list S ds st = Ok st' -> Inv st'.
+  Lemma exec_list_inv_aux Os S ds :
+    Forall (fun d => forall Os S st st', all_ok ok d = true -> Inv st -> exec Os S d st = Ok st' -> Inv st') ds ->
+    forall st st', forallb (all_ok ok) ds = true -> Inv st -> exec_list Os S ds st = Ok st' -> Inv st'.
   Proof.
     induction 1 as [|d ds Hd _ IH]; intros st st' Hok Hinv Hex; simpl in *.
     - inversion Hex; subst; assumption.
     - apply andb_true_iff in Hok as [Hok1 Hok2].
-      destruct (exec S d st) as [st1| |] eqn:E; try discriminate.
+      destruct (exec Os S d st) as [st1| |] eqn:E; try discriminate.
       eapply IH; [exact Hok2 | eapply Hd; [exact Hok1 | exact Hinv | exact E] | exact Hex].
   Qed.
 
-  Lemma exec_inv : forall d S st st', all_ok ok d = true -> Inv st -> exec S d st = Ok st' -> Inv st'.
+  Lemma exec_inv : forall d Os S st st', all_ok ok d = true -> Inv st -> exec Os S d st = Ok st' -> Inv st'.
   Proof.
     induction d as [r p body IHb | r k v | s t sa da idx p eb | s t sa da i k v] using decl_ind';
-      intros S st st' Hok Hinv Hex.
+      intros Os S st st' Hok Hinv Hex.
     - destruct r as [ups ns]. rewrite exec_DObj in Hex. unfold exec_obj in Hex.
       destruct ns as [|n ns]; [destruct (Nat.eqb ups 0); discriminate|].
       destruct (base_of S ups) as [B|]; [|discriminate].
@@ -425,13 +425,13 @@ Section Invariant.
       { pose proof (H_ensure S B (n :: ns) st Hinv) as H. rewrite En in H. exact H. }
       simpl in Hok. apply andb_true_iff in Hok as [_ Hok].
       assert (forall st2, Inv st2 ->
-                match body with None => Ok st2 | Some ds => exec_list D ds st2 end = Ok st' -> Inv st') as Hbody.
+                match body with None => Ok st2 | Some ds => exec_list (S :: Os) D ds st2 end = Ok st' -> Inv st') as Hbody.
       { intros st2 I2 Hb. destruct body as [ds|].
         - eapply exec_list_inv_aux; eauto.
         - inversion Hb; subst; assumption. }
       destruct p.
       + eapply Hbody; eauto.
-      + destruct (is_prefix (fkey D) (fkey S)); [discriminate|]. inversion Hex; subst. apply H_delete. exact I1.
+      + destruct (existsb _ (S :: Os)); [discriminate|]. inversion Hex; subst. apply H_delete. exact I1.
       + eapply Hbody; [|exact Hex]. apply (H_upd (fkey D) (set_prim s) (mkState os1 (edges st))); [reflexivity | exact I1].
     - destruct r as [ups ns]. simpl in Hex.
       destruct (base_of S ups) as [B|]; [|discriminate].
@@ -443,10 +443,10 @@ Section Invariant.
     - simpl in Hok. apply andb_true_iff in Hok as [Hok _]. eapply H_edge_attr; eauto.
   Qed.
 
-  Lemma exec_list_inv S ds st st' :
-    forallb (all_ok ok) ds = true -> Inv st -> exec_list S ds st = Ok st' -> Inv st'.
+  Lemma exec_list_inv Os S ds st st' :
+    forallb (all_ok ok) ds = true -> Inv st -> exec_list Os S ds st = Ok st' -> Inv st'.
   Proof.
-    apply exec_list_inv_aux. apply Forall_forall. intros d _ S' st0 st0'. apply exec_inv.
+    apply exec_list_inv_aux. apply Forall_forall. intros d _ Os' S' st0 st0'. apply exec_inv.
   Qed.
 
   Lemma run_state_inv p st : prog_ok ok p = true -> Inv init -> run_state p = Ok st -> Inv st.
